@@ -14,6 +14,8 @@ before the rules run, so that equivalent spellings reach the rules as one.
       (v unused outside the loop, L not read by X / C / E)
   K10 in a function that also returns the constants True / False: `return <comparison / and / or / not of comparisons>`
       ->  `if <that>: return True` / `return False`   (the expression is bool-valued, so nothing changes)
+  K12 constant parts of an f-string are folded into its literal text (`f"({X})"` with X a str constant -> "(...)"); a sum of two
+      string constants is one constant
   K8  `not (a or b)` / `not (a and b)` in an if/while test -> De Morgan form with `not` on the atoms; `not a not in b` etc. folded
 
 None of these changes what the code computes; line/column of the rewritten
@@ -55,6 +57,28 @@ class _Expr(ast.NodeTransformer):
                 and node.args[0].operand.value == 1:
             node.args = []
             return node
+        return node
+
+    def visit_JoinedStr(self, node: ast.JoinedStr):
+        self.generic_visit(node)
+        parts: list = []
+        for v in node.values:
+            if isinstance(v, ast.FormattedValue) and isinstance(v.value, ast.Constant) and isinstance(v.value.value, str) and v.conversion == -1 and v.format_spec is None:
+                v = ast.copy_location(ast.Constant(value=v.value.value), v)
+            if isinstance(v, ast.Constant) and isinstance(v.value, str) and parts and isinstance(parts[-1], ast.Constant):
+                parts[-1] = ast.copy_location(ast.Constant(value=parts[-1].value + v.value), parts[-1])
+            else:
+                parts.append(v)
+        if all(isinstance(x, ast.Constant) for x in parts):
+            return ast.copy_location(ast.Constant(value="".join(x.value for x in parts)), node)
+        node.values = parts
+        return node
+
+    def visit_BinOp(self, node: ast.BinOp):
+        self.generic_visit(node)
+        if isinstance(node.op, ast.Add) and isinstance(node.left, ast.Constant) and isinstance(node.right, ast.Constant) \
+                and isinstance(node.left.value, str) and isinstance(node.right.value, str):
+            return ast.copy_location(ast.Constant(value=node.left.value + node.right.value), node)
         return node
 
     def visit_Compare(self, node: ast.Compare):
